@@ -153,3 +153,33 @@ PROPS["C19"] = dict(
     design_ref="§6 C19",
     scope="all names (fast path, decision logic); case conversion by model-vs-heck testing",
 )
+
+_STMT_MODEL_NOTE = ("Trusted: Lean kernel; the hand-written statement model (lean/SeaQ/Model/Stmt.lean, Render.lean: the prepare_* call tree of "
+    "QueryBuilder with the three backends' overrides and the two writers), tied to the crate by the correspondence run on generated statement "
+    "recipes (all five statement kinds, nesting up to depth 4) through every public entry point; the engines' lexical rules as specified in "
+    "SeaQ.Scan.segment (strings and quoted identifiers by the C03 / C04 lexers, placeholders outside them; MySQL \"..\" strings, SQLite [..] / `..` "
+    "identifiers and the U& / x / b / n literal prefixes are outside the fragment and make the reading fail); Display of floats, decimals, dates, "
+    "uuids (their text is an input of the model). `Safe` is proved sufficient, and evaluated on every generated statement whose raw text is plain; "
+    "that every raw-free statement renders to a safe piece list is not yet a theorem (DESIGN.md).")
+
+PROPS["C01"] = dict(
+    groups=["token", "escape", "quote"],
+    lean_props=["SeaQ.Props.C01"],
+    lean_obligations=["SeaQ.Lemmas.Scan"],
+    technique="Lean 4 proof over the statement rendering model: for every piece list (unbounded), the values returned are the parameter pieces' values in order (no hypothesis), and under the decidable Safe discipline the engine-side reading of the parameterised text is the piece-wise one, so the placeholders outside quoted text are ?xn / $1..$n ascending, one per value; model tied to the crate by differential runs of generated statements through build / build_any / build_collect*, with an independent reference-lexer oracle on the crate's output",
+    level_text="Machine-checked for every piece list, hence for the rendering of every statement of the model (any nesting): (textP ps).values = parameter pieces in order; Safe ps -> segment(text) = piece-wise items, placeholders = expectedMarks n. The theorem covers caller-supplied raw text only when it is plain (no quotes / marks); Safe of the rendering is evaluated by the model on every generated statement with plain raw text and must hold.",
+    level_note=_STMT_MODEL_NOTE,
+    design_ref="§6 C01",
+    scope="all piece lists / all statements of the model under Safe; generated statements for the tie",
+)
+
+PROPS["C02"] = dict(
+    groups=["token", "escape", "quote"],
+    lean_props=["SeaQ.Props.C02"],
+    lean_obligations=["SeaQ.Lemmas.Scan", "SeaQ.Props.C01"],
+    technique="Lean 4 proof over the statement rendering model: for every Safe piece list, reading the parameterised text the way the engine does and re-printing it with each placeholder replaced by the literal of its value gives exactly the inline text (C02_substitute); the crate's entry points (to_string, build, build_any, build_collect, build_collect_any, String and SqlWriterValues writers) are compared with the model's two texts and with each other on every generated statement, rendering twice and Debug-equality before/after rendering included",
+    level_text="Machine-checked: substitute d (textP ps).sql (values.map lit) = some (textI ps) for every Safe piece list (unbounded nesting). Entry-point agreement, repeatability and non-modification are checked on every generated statement (differential / metamorphic, not a theorem). Execution of both forms on SQLite is part of C07.",
+    level_note=_STMT_MODEL_NOTE,
+    design_ref="§6 C02",
+    scope="all piece lists / all statements of the model under Safe; generated statements for the tie and the entry points",
+)
